@@ -87,17 +87,18 @@ CLAIMED["C20"] = ("exploration",
  "DESIGN.md section 4 C20")
 # fourth session: what was added to the simulated environment per property (appended to the technique text)
 EXTRA4 = {
+ "C19": " Fourth session: Two resolutions of the same roots interleaved on one thread by the harness executor.",
  "C20": " Fourth session: Raw edits that fill a count field exactly.",
  "C17": " Fourth session: A caller-written re-entrant visitor chain reads another class of the stream from inside its callbacks.",
- "C14": " Fourth session: LazyJar class entries under names not ending in .class; non-BMP class names; poison class write first.",
+ "C14": " Fourth session: LazyJar class entries under names not ending in .class; non-BMP class names; poison class write first. LazyJar per-open renumbering.",
  "C01": " Fourth session: the class starts at a non-zero offset of the stream (head bytes, by preference a copy of the class itself); attrition (70-260 failing reads on one thread, then the undamaged bytes). Label-heavy warm-up read on the thread.",
  "C02": " Fourth session: the simulated sink has a real gather write (write_vectored may stop inside any slice). Grow-over-limit workload; method-reference twins of both pool kinds.",
- "C03": " Fourth session: the written text is also stored on the simulated disk as a regular file / symbolic link / pipe (metadata size 0) in a directory whose name and path are drawn, and read through the path-taking read_file. The file is replaced (same length, mtime kept) and read again under the same path.",
- "C04": " Fourth session: one line of a diff text one tab too deep - a refusal, or an Ok that still says what every other line says. A refused Names::change_name leaves no trace.",
- "C05": " Fourth session: the mappings directory is named / reached in a drawn way (hidden, space, non-ASCII, named like a file, dir/., through .., through a symbolic link), the root file can be a pipe, lookup-key collisions on either half of a split name, unknown names composed of existing halves. File names that are not UTF-8; overwrites that keep the modification time.",
- "C07": " Fourth session: a caller-written BRemapper laid over the mapping-based one (the remapper is a trait the caller may implement). A class write that fails inside an attribute body precedes the run on the thread.",
- "C12": " Fourth session: the directories handed to enigma_dir::write / read are named and reached in a drawn way (see C05). A package directory deeper than PATH_MAX (cannot be listed by path); files that are pipes; a directory where a file is to be created.",
- "C13": " Fourth session: a failed write of the merged jar (put_to_file onto /dev/full, or hook H3 into a sink with little room) precedes the write to memory. The jars as files behind FileJar under paths that held the other jar (same size, mtime kept); poison class write first.",
+ "C03": " Fourth session: the written text is also stored on the simulated disk as a regular file / symbolic link / pipe (metadata size 0) in a directory whose name and path are drawn, and read through the path-taking read_file. The file is replaced (same length, mtime kept) and read again under the same path. One line one tab too deep: refusal or nothing lost; a medium that delivers no byte is never Ok.",
+ "C04": " Fourth session: one line of a diff text one tab too deep - a refusal, or an Ok that still says what every other line says. A refused Names::change_name leaves no trace. A file cut to zero bytes is never Ok; class-less diffs with a set-level comment action.",
+ "C05": " Fourth session: the mappings directory is named / reached in a drawn way (hidden, space, non-ASCII, named like a file, dir/., through .., through a symbolic link), the root file can be a pipe, lookup-key collisions on either half of a split name, unknown names composed of existing halves. File names that are not UTF-8; overwrites that keep the modification time. A diff file cut to zero bytes on the path is never answered.",
+ "C07": " Fourth session: a caller-written BRemapper laid over the mapping-based one (the remapper is a trait the caller may implement). A class write that fails inside an attribute body precedes the run on the thread. Library provider asked after the main jar's with a bundled class copy; wiped central-directory fields; LazyJar odd names and per-open renumbering.",
+ "C12": " Fourth session: the directories handed to enigma_dir::write / read are named and reached in a drawn way (see C05). A package directory deeper than PATH_MAX (cannot be listed by path); files that are pipes; a directory where a file is to be created. Directories below a path that is not valid UTF-8.",
+ "C13": " Fourth session: a failed write of the merged jar (put_to_file onto /dev/full, or hook H3 into a sink with little room) precedes the write to memory. The jars as files behind FileJar under paths that held the other jar (same size, mtime kept); poison class write first. LazyJar renumbers its entries at every open(); resources named like the manifest up to case.",
  "C15": " Fourth session: the jars as files of the simulated directory behind dukebox FileJar, optionally under paths that held other jars during an earlier call. Same-size same-mtime generations of the jar files; a library bundling another copy of a main-jar class.",
  "C16": " Fourth session: seed input max-labels (a method with a label at every bytecode offset 0..=65535). Undamaged class inputs are also read by a re-entrant visitor (reads the class again from inside its callbacks).",
 }
